@@ -6,6 +6,7 @@ Forbidden-construct / taint rules over the whole package, each with a canary tha
   R3 entropy only from the module-level `random` functions (seedable with random.seed);
   R4 no wall clock / real-time environment;
   R5 no write to the kernel clock or event queue, no heap operations on kernel state;
+  R7 the time a node records at a state change is the simulation clock read at that call (monotone component clocks);
   R6 no state outlives an instance: module-level / class-level mutable objects are neither mutated at run time nor aliased or shallow-copied into
      instance attributes that are mutated in place ("twice in one interpreter" must start from the same state both times).
 """
@@ -70,6 +71,22 @@ def run(p: Project, tier: str) -> Result:
         r.fail('C19.R6', construct, msg, src(rel), line)
     r.ok('C19.R6', 'package::R6-scan', f'{len(raw.modules)} modules, {n_sites} module-/class-level mutable object(s) and run-time writes examined', '', 0)
     r.stats['R6_sites'] = n_sites
+    # R7: the clock a component records is the kernel's clock at that moment (path rule shared with C17.R12)
+    from .. import nodewalk
+    from . import c17
+    r.rule('C19.R7', 'every state-change stamp a node records is the current simulation clock (the component never sees time go backwards)', 8)
+    sub = Result('C19')
+    for w in nodewalk.walks(p):
+        sub.ctx = r.ctx = w.ci.label
+        c17.check_stamp_is_clock(w, sub)
+        r.paths += w.npaths
+    r.ctx = ''
+    for o in sub.obligations:
+        if o.rule == 'C17.R12' and o.ok:
+            r.ok('C19.R7', o.construct, o.detail, o.file, o.line)
+    for f in sub.findings:
+        if f.rule == 'C17.R12':
+            r.fail('C19.R7', f.construct, f.message, f.file, f.line, f.path)
     chits, _ = sharedstate.scan({'canary.py': ast.parse(sharedstate.CANARY)})
     kinds = {c.split('::')[-1].split('(')[0] for _, _, c, _ in chits}
     r.canaries['C19.R6'] = {'shared', 'mutates-shared', 'class-attribute-write'} <= kinds
